@@ -33,9 +33,9 @@ def ob_1a():
         check_all_panics(stats, paths)
         for ctx, (dom, ex, W, ppube, idb, r) in live_paths(paths):
             P1, P2 = consts(dom, ex)
-            if len(W.draws) != 1:
-                raise Violation("exch_step_1a draws %d scalars" % len(W.draws))
-            ra = W.draws[0]
+            if not W.draws:
+                raise Violation("exch_step_1a draws no scalar")
+            ra = W.draws[-1]
             Q = W.PADD(W.PMUL(P1, W.H1([dom.term(b) for b in idb], z3.BitVecVal(2, 8))), ppube)
             discharge(stats, ctx.facts + ctx.pc, z3.And(flatten(dom, r.f[0], S_POINT) == W.PMUL(Q, ra), u256_term(dom, r.f[1]) == ra),
                       "R_A = [r_A]([H1(ID_B||02)]P1 + Ppub-e) for a fresh r_A, which is returned for step 2")
